@@ -16,6 +16,14 @@ def has_not(p):
     return p[0] == "cmp" and p[2] == "<>"
 
 
+def is_range_pair(p):
+    lo, hi = (">", ">="), ("<", "<=")
+    if p[0] != "and" or p[1][0] != "cmp" or p[2][0] != "cmp":
+        return False
+    a, b = p[1][2], p[2][2]
+    return (a in lo and b in hi) or (a in hi and b in lo)
+
+
 def preds_from_tlc(prop):
     vals, _ = vlib.tlc_gen(f"{prop}-preds", "TableQuery", Q.TQ_CFG.format(steps=0, inv="PredList", props=""), tag="PREDS",
                            workers=1, timeout=900)
@@ -44,7 +52,12 @@ def run(prop, tier, replay):
         knobs = [{"name": "base"}, {"use_scalar_index": False}, {"batch_size": 1}, {"materialization": "late"}]
         own = {"IndexedScanEqualsEval", "IndexedCountEqualsEval"}
     if tier == "quick":
-        preds_used = rnd.sample(preds, min(len(preds), 120))
+        # every conjunction of a lower with an upper bound (the planner fuses them into one range search, in
+        # eight operator pairings), the rest sampled
+        pairs = [p for p in preds if is_range_pair(p)]
+        rest = [p for p in preds if not is_range_pair(p)]
+        preds_used = pairs + rnd.sample(rest, min(len(rest), max(60, 130 - len(pairs))))
+        rnd.shuffle(preds_used)
     else:
         preds_used = preds
     scenarios = []
